@@ -811,8 +811,28 @@ def gen_sign_sessions(rng, count):
 		else:
 			chosen = [rand_bytes(rng, 32).hex() for _ in range(wanted)]
 		items = chosen[:1] + (chosen[:1] if rng.randrange(2) else []) + chosen[1:] + chosen[:1]
-		cases.append({'kind': 'sign-session', 'net': net, 'network': network, 'secret': secret.hex(), 'via': via, 'items': items})
+		case = {'kind': 'sign-session', 'net': net, 'network': network, 'secret': secret.hex(), 'via': via, 'items': items}
+		# where the 32 secret bytes live while the key pair is in use: the PrivateKey handed to KeyPair / create_account may be backed by a
+		# caller-owned mutable buffer, which the caller wipes or loads the next key into once the key pair exists (before item `at`)
+		mode = KEY_BUFFER_MODES[(index // 2) % len(KEY_BUFFER_MODES)]
+		if mode != 'bytes':
+			case['key_buffer'] = {'mode': mode, 'at': rng.randrange(2), 'next': rand_bytes(rng, 32).hex()}
+		cases.append(case)
 	return cases
+
+
+KEY_BUFFER_MODES = ['bytes', 'bytearray-wiped', 'bytearray-reused', 'bytearray-kept']
+
+
+def touch_key_buffer(facade, buffers, key_buffer):
+	"""What the owner of the buffers does with them after the key pair was made: zeroise, or read the next key into them (and use it)."""
+	from symbolchain.CryptoTypes import PrivateKey
+	for buffer in buffers:
+		if key_buffer['mode'] == 'bytearray-wiped':
+			buffer[:] = bytes(len(buffer))
+		elif key_buffer['mode'] == 'bytearray-reused':
+			buffer[:] = bytes.fromhex(key_buffer['next'])
+			facade.KeyPair(PrivateKey(buffer)).sign(b'next key in use')
 
 
 def impl_sign_session(case):
@@ -820,11 +840,15 @@ def impl_sign_session(case):
 	net, via = case['net'], case['via']
 	facade = facade_of(net, case['network'])
 	try:
-		key_pair = facade.KeyPair(PrivateKey(bytes.fromhex(case['secret'])))
-		account = facade.create_account(PrivateKey(bytes.fromhex(case['secret'])))
+		key_buffer = case.get('key_buffer')
+		buffers = [bytearray.fromhex(case['secret']) if key_buffer else bytes.fromhex(case['secret']) for _ in range(2)]
+		key_pair = facade.KeyPair(PrivateKey(buffers[0]))
+		account = facade.create_account(PrivateKey(buffers[1]))
 		signatures, verdicts = [], []
 		for index, item in enumerate(case['items']):
 			data = bytes.fromhex(item)
+			if key_buffer and index == key_buffer['at']:
+				touch_key_buffer(facade, buffers, key_buffer)
 			if via == 'keypair':
 				signature = key_pair.sign(data)
 				verdicts.append(outcome(lambda: facade.Verifier(key_pair.public_key).verify(data, signature)))   # pylint: disable=cell-var-from-loop
@@ -889,6 +913,8 @@ def oracle_sign_session(case, out):
 		message = session_message(case, item)
 		public, expected = reference_sign(case['net'], secret, message)
 		where = f'signature #{index + 1} of {len(case["items"])} produced by one {case["via"]} object'
+		if 'key_buffer' in case and index >= case['key_buffer']['at']:
+			where += f' (made from a PrivateKey over a caller-owned bytearray that was {case["key_buffer"]["mode"][10:]} before signature #{case["key_buffer"]["at"] + 1})'
 		if out['public'] != public.hex():
 			return f'public key {out["public"]} differs from the reference {public.hex()}'
 		if out['signatures'][index] != expected.hex():
@@ -1054,6 +1080,27 @@ def apply_assignment(transaction, edit):
 
 USES_BEFORE = [['sign', 'verify'], ['hash'], ['verify'], ['payload'], ['sign', 'hash', 'verify'], [], ['hash', 'sign']]
 
+NEM_MULTISIG_TYPE = 0x1004
+
+
+def head_assignments(rng, net, transaction):
+	"""In-place changes of the two head members that name the transaction's kind -- `version` (one bit) and `type_` (another member of
+	the enumeration; for a Symbol aggregate every other time the other aggregate type).  Both are serialized inside the signed window
+	(Symbol bytes 108 and 110..111, NEM bytes 0..3 and 4), so they are covered data like any other member, whatever constants the
+	object's class declares.  NEM: the layout of the non-verifiable form follows the class of the object; only the multisig class has a
+	layout of its own, so multisig objects keep their type and no other object is given the multisig type."""
+	edits = [{'path': ['version'], 'op': 'int', 'value': transaction.version ^ (1 << rng.randrange(8))}]
+	current = transaction.type_
+	others = [member for member in type(current) if member is not current]
+	if net == 'nem':
+		if current.value == NEM_MULTISIG_TYPE:
+			return edits
+		others = [member for member in others if member.value != NEM_MULTISIG_TYPE]
+	aggregates = [member for member in others if net == 'sym' and current.value in SYM_AGGREGATE_TYPES and member.value in SYM_AGGREGATE_TYPES]
+	chosen = aggregates[0] if aggregates and rng.randrange(2) else rng.choice(others)
+	edits.append({'path': ['type_'], 'op': 'enum', 'value': chosen.name})
+	return edits
+
 
 def gen_mutate_sessions(rng, rounds):
 	"""Per network combination and transaction kind: use the object (hash / payload / sign / verify in several orders), assign ONE member in place
@@ -1072,10 +1119,12 @@ def gen_mutate_sessions(rng, rounds):
 				if loose:
 					picks.append(rng.choice(loose))
 				_, old_signature = reference_sign(net, secret, expected_payload({'net': net, 'network': network, 'tx': data.hex()}))
-				for member_path, klass, value in picks:
-					edit = make_assignment(rng, member_path, klass, value)
+				edits = [make_assignment(rng, member_path, klass, value) for member_path, klass, value in picks]
+				edits += head_assignments(rng, net, facade.transaction_factory.deserialize(data))
+				for edit in edits:
 					if edit is None:
 						continue
+					member_path = edit['path']
 					cases.append({
 						'kind': 'mutate-session', 'net': net, 'network': network, 'secret': secret.hex(), 'tx_kind': tx_kind, 'tx': data.hex(),
 						'before': USES_BEFORE[len(cases) % len(USES_BEFORE)], 'edit': edit, 'old_signature': old_signature.hex(),
@@ -1208,7 +1257,7 @@ def run_entry_points_and_sessions(check, signed, with_model):
 			if kind == 'zerokey':
 				label = f'zerokey:{case["net"]}:{case["entry"]}:{out}'
 			elif kind == 'sign-session':
-				label = f'sign-session:{case["net"]}:{case["via"]}:{len(case["items"])}'
+				label = f'sign-session:{case["net"]}:{case["via"]}:{len(case["items"])}:' + case.get('key_buffer', {}).get('mode', 'bytes')
 			elif kind == 'verify-session':
 				label = f'verify-session:{case["net"]}:{case["keytype"]}:{len(case["steps"])}'
 			else:
@@ -1270,9 +1319,9 @@ def run(check, unrecognised):
 		'bytes) and deserialized zero-signer transactions (signature passed or taken from the transaction) and a parsed cosignature, each with R||0 ' \
 		'for the 8 small-order R (incl. the all-zero signature) and an honest signer\'s signature, on both networks of both chains; signing sessions ' \
 		'(ONE KeyPair / facade account object signs 3-5 payloads, transactions or cosigned hashes, the first one again later, every signature ' \
-		'against the reference); verifier sessions (ONE Verifier object, valid and perturbed pairs interleaved); use / assign / use sessions on ONE ' \
+		'against the reference; all this also with the PrivateKey over a caller-owned bytearray that is kept, wiped or loaded with the next key while the key pair is in use); verifier sessions (ONE Verifier object, valid and perturbed pairs interleaved); use / assign / use sessions on ONE ' \
 		'transaction object (hash, payload, sign, verify in several orders, then one member assigned in place -- top-level number, any nested member, ' \
-		'signature, signer, list pop/append, BaseValue.value -- then verify(old signature) must fail iff the documented payload or the signer ' \
+		'signature, signer, list pop/append, BaseValue.value, and the head members version (one bit) and type_ (another enumeration member) -- then verify(old signature) must fail iff the documented payload or the signer ' \
 		'changed, and signing again must give the reference signature of the current payload), all transaction kinds, both chains and networks. ' \
 		'distinct = distinct (kind, arguments)'
 	for module in ('KeyPairOps', 'PayloadOps'):
